@@ -5,28 +5,33 @@ import PycsepVerif.Proofs.FilterMct
 
 Theorems about `Model/FilterMct.lean`. `apply_mct` is a filter too: on a time-sorted catalog it keeps exactly the rows that
 are NOT (inside `[event_epoch, t_crit_epoch]` and below the completeness magnitude of their time), in order, rows whole;
-it is idempotent and commutes with every statement filter and with the spatial filter. On an unsorted catalog it is the
+it is idempotent and commutes with every statement filter and with the spatial filter. An empty catalog is returned as it is
+(fix D37; `finding_d37_unrepaired` keeps the statement about the code before the fix). On an unsorted catalog it is the
 same cut applied to the rows in front of the first row later than `t_crit_epoch` only (`mct_eq_prefix`). All statements
 are for every catalog (any length), every value of the two floats and every decision function `below`.
 -/
 namespace CatFilter
 
-/-- the short-circuit on the first row (catalogs.py:625) never changes the outcome: on a non-empty catalog `apply_mct`
-    is the loop -/
-theorem applyMct_eq_loop (p : Mct) (es : List Event) (hne : es ≠ []) : applyMct p es = .ok (mctLoop p es) := by
+/-- the short-circuit on the first row (catalogs.py:629) and the early return for an empty catalog (D37) never change the
+    outcome: `apply_mct` is the loop, for EVERY catalog -/
+theorem applyMct_eq_loop (p : Mct) (es : List Event) : applyMct p es = mctLoop p es := by
   cases es with
-  | nil => exact absurd rfl hne
+  | nil => rfl
   | cons e es =>
     by_cases h : p.tCrit < (e.originTime : Rat)
     · simp [applyMct, mctLoop, h]
     · simp [applyMct, h]
 
-/-- `apply_mct` raises (IndexError of `times[0]`) exactly on the empty catalog -/
-theorem applyMct_error_iff (p : Mct) (es : List Event) : (∃ err, applyMct p es = .error err) ↔ es = [] := by
+/-- an empty catalog is returned as it is (fix D37) … -/
+theorem applyMct_nil (p : Mct) : applyMct p [] = [] := rfl
+
+/-- … the code before the fix raised on exactly the empty catalog and agreed with the repaired code everywhere else -/
+theorem finding_d37_unrepaired (p : Mct) (es : List Event) :
+    ((∃ err, applyMctD37 p es = .error err) ↔ es = []) ∧ (es ≠ [] → applyMctD37 p es = .ok (applyMct p es)) := by
   cases es with
-  | nil => exact ⟨fun _ => rfl, fun _ => ⟨.emptyCatalog, rfl⟩⟩
+  | nil => exact ⟨⟨fun _ => rfl, fun _ => ⟨.emptyCatalog, rfl⟩⟩, fun h => absurd rfl h⟩
   | cons e es =>
-    by_cases h : p.tCrit < (e.originTime : Rat) <;> simp [applyMct, h]
+    by_cases h : p.tCrit < (e.originTime : Rat) <;> simp [applyMctD37, applyMct, h]
 
 /-- ANY catalog (sorted or not): the cut is applied to the rows in front of the first row later than `t_crit_epoch`;
     that row and everything behind it are kept as they are -/
@@ -111,15 +116,10 @@ theorem mct_idem (p : Mct) (es : List Event) : mctLoop p (mctLoop p es) = mctLoo
       · have hk' : mctKeep p e = false := by simpa using hk
         simp only [h1, if_false, hk', Bool.false_eq_true]; exact ih
 
-/-- … at the level of the call: a second `apply_mct` with the same arguments returns the same catalog — unless the first
-    removed every row, in which case the second raises (empty catalog) -/
-theorem applyMct_twice (p : Mct) (es es' : List Event) (h : applyMct p es = .ok es') (hne : es' ≠ []) :
-    applyMct p es' = .ok es' := by
-  have hes : es ≠ [] := by
-    intro h0; subst h0; simp [applyMct] at h
-  rw [applyMct_eq_loop p es hes] at h
-  have h' : mctLoop p es = es' := by simpa using h
-  rw [applyMct_eq_loop p es' hne, ← h', mct_idem]
+/-- … at the level of the call: a second `apply_mct` with the same arguments returns the same catalog, also when the first
+    removed every row (since D37) -/
+theorem applyMct_twice (p : Mct) (es : List Event) : applyMct p (applyMct p es) = applyMct p es := by
+  rw [applyMct_eq_loop, applyMct_eq_loop, mct_idem]
 
 /-- the cut commutes with any per-row filter on a time-sorted catalog … -/
 theorem mct_comm_rowfilter (p : Mct) (q : Event → Bool) (es : List Event) (hs : TimeSorted es) :
@@ -164,32 +164,21 @@ theorem filterSpatial_count (r : Region) (es : List Event) (e : Event) :
   cases h : r.masked e.longitude e.latitude <;> simp [h]
 
 /-- `apply_mct` is in place: the object keeps its filters and region, only the rows change -/
-theorem stepMct_in_place (c c' : Cat) (p : Mct) (h : stepMct c p = .ok c') :
-    c'.filters = c.filters ∧ c'.region = c.region ∧ applyMct p c.events = .ok c'.events := by
-  unfold stepMct at h
-  cases ha : applyMct p c.events with
-  | error e => rw [ha] at h; simp [Except.map] at h
-  | ok es =>
-    rw [ha] at h
-    simp only [Except.map, Except.ok.injEq] at h
-    subst h
-    exact ⟨rfl, rfl, rfl⟩
+theorem stepMct_in_place (c : Cat) (p : Mct) :
+    (stepMct c p).filters = c.filters ∧ (stepMct c p).region = c.region ∧ (stepMct c p).events = applyMct p c.events :=
+  ⟨rfl, rfl, rfl⟩
 
-/-- The filter stage of `CatalogForecast.__next__` with all three stages switched on, on a time-sorted catalog that the
-    statement filters do not empty: the yielded catalog holds exactly the rows that satisfy every statement, survive the
-    completeness cut and lie inside the region — ONE pass over the rows, so the order of the three stages is irrelevant -/
-theorem next_all_stages (fs : List RawStmt) (hfs : fs ≠ []) (p : Mct) (r : Region) (c : Cat) (hs : TimeSorted c.events)
-    (hne : filterList (fs.map RawStmt.parse) c.events ≠ []) :
+/-- The filter stage of `CatalogForecast.__next__` with all three stages switched on, on a time-sorted catalog (empty or
+    emptied by the statements included, since D37): the yielded catalog holds exactly the rows that satisfy every statement,
+    survive the completeness cut and lie inside the region — ONE pass over the rows, so the order of the stages is irrelevant -/
+theorem next_all_stages (fs : List RawStmt) (hfs : fs ≠ []) (p : Mct) (r : Region) (c : Cat) (hs : TimeSorted c.events) :
     ∃ c', nextFilter ⟨true, fs, some p, true, some r⟩ c = .ok c' ∧
       c'.events = c.events.filter (fun e => (fs.map RawStmt.parse).all (fun s => s.holds e) && mctKeep p e &&
                                             !r.masked e.longitude e.latitude) := by
   have hfe : fs.isEmpty = false := by cases fs <;> simp_all
-  have h1 := applyMct_eq_loop p _ hne
-  refine ⟨(stepSpatial { (stepFilter c fs true).2 with
-      events := mctLoop p (filterList (fs.map RawStmt.parse) c.events) } r true).2, ?_, ?_⟩
-  · simp only [nextFilter, Bool.not_true, Bool.false_eq_true, if_false, hfe, stepFilter, if_true, stepMct, h1,
-      Except.map, resolveRegion]
-  · simp only [stepSpatial, if_true, filterSpatial, filterSpatialBy]
+  refine ⟨(stepSpatial (stepMct (stepFilter c fs true).2 p) r true).2, ?_, ?_⟩
+  · simp [nextFilter, hfe, resolveRegion]
+  · simp only [stepSpatial, if_true, filterSpatial, filterSpatialBy, stepMct, stepFilter, applyMct_eq_loop]
     have hs1 : TimeSorted (filterList (fs.map RawStmt.parse) c.events) := by
       rw [filterList_eq_filter]; exact hs.sublist List.filter_sublist
     rw [mct_sorted_eq_filter p _ hs1, filterList_eq_filter, List.filter_filter, List.filter_filter]
@@ -205,17 +194,49 @@ theorem next_off (fs : List RawStmt) (m : Option Mct) (sp : Bool) (r : Option Re
     nextFilter ⟨false, fs, m, sp, r⟩ c = .ok c := by
   simp [nextFilter]
 
-/-- AS THE CODE IS: when the statement filters (or the catalog itself) leave no row, the completeness stage raises
-    (IndexError of `times[0]`) instead of yielding the empty catalog — see notes/C04.md, candidate W-C04-1 -/
-theorem next_mct_raises_on_empty (fs : List RawStmt) (p : Mct) (sp : Bool) (r : Option Region) (c : Cat)
+/-- since D37: when the statement filters (or the catalog itself) leave no row, the completeness stage passes the empty
+    catalog on instead of raising, so the forecast yields an empty catalog -/
+theorem next_mct_empty_ok (fs : List RawStmt) (p : Mct) (c : Cat)
     (h : (if fs.isEmpty then c.events else filterList (fs.map RawStmt.parse) c.events) = []) :
-    nextFilter ⟨true, fs, some p, sp, r⟩ c = .error .emptyCatalog := by
+    ∃ c', nextFilter ⟨true, fs, some p, false, none⟩ c = .ok c' ∧ c'.events = [] := by
   by_cases hfe : fs.isEmpty = true
   · simp only [hfe, if_true] at h
-    simp [nextFilter, hfe, stepMct, h, applyMct, Except.map]
+    exact ⟨stepMct c p, by simp [nextFilter, hfe], by simp [stepMct, h, applyMct]⟩
   · have hfe' : fs.isEmpty = false := by simpa using hfe
     simp only [hfe', Bool.false_eq_true, if_false] at h
-    simp [nextFilter, hfe', stepFilter, stepMct, h, applyMct, Except.map]
+    exact ⟨stepMct (stepFilter c fs true).2 p, by simp [nextFilter, hfe'], by simp [stepMct, stepFilter, h, applyMct]⟩
+
+/-! ### spatial filter on a quadtree region (D42) -/
+
+/-- kept ⇔ inside some half-open tile `[x0, x1) × [y0, y1)` -/
+theorem filterSpatialQuad_mem_iff (r : QuadRegion) (es : List Event) (e : Event) :
+    e ∈ filterSpatialQuad r es ↔
+      e ∈ es ∧ ∃ b ∈ r.bounds, b.1 ≤ e.longitude ∧ b.2.1 ≤ e.latitude ∧ e.longitude < b.2.2.1 ∧ e.latitude < b.2.2.2 := by
+  unfold filterSpatialQuad filterSpatialBy QuadRegion.masked
+  rw [List.mem_filter]
+  simp [inTile, List.any_eq_true, and_assoc]
+
+theorem filterSpatialQuad_sublist (r : QuadRegion) (es : List Event) : (filterSpatialQuad r es).Sublist es :=
+  List.filter_sublist
+
+theorem filterSpatialQuad_idem (r : QuadRegion) (es : List Event) :
+    filterSpatialQuad r (filterSpatialQuad r es) = filterSpatialQuad r es := filter_filter_self _ _
+
+theorem filterSpatialQuad_comm_filter (r : QuadRegion) (ss : List Stmt) (es : List Event) :
+    filterSpatialQuad r (filterList ss es) = filterList ss (filterSpatialQuad r es) := by
+  rw [filterList_eq_filter, filterList_eq_filter]
+  unfold filterSpatialQuad filterSpatialBy
+  rw [List.filter_filter, List.filter_filter]
+  congr 1; funext e; exact Bool.and_comm _ _
+
+/-- before D42 the class had no `get_masked`; the repaired spatial filter on a one-tile grid is the Cartesian one-cell filter -/
+theorem filterSpatialQuad_single_tile (x y dh : Rat) (es : List Event) :
+    filterSpatialQuad ⟨[(x, y, x + dh, y + dh)]⟩ es = filterSpatial ⟨dh, [(x, y)]⟩ es := by
+  unfold filterSpatialQuad filterSpatial filterSpatialBy QuadRegion.masked Region.masked
+  congr 1; funext e
+  simp only [List.any_cons, List.any_nil, Bool.or_false, inTile, inCell]
+  cases decide (x ≤ e.longitude) <;> cases decide (y ≤ e.latitude) <;> cases decide (e.longitude < x + dh) <;>
+    cases decide (e.latitude < y + dh) <;> rfl
 
 /-! non-vacuity -/
 section Examples
@@ -228,12 +249,14 @@ def q6 : Event := ⟨6, 86400001, 0, 0, 1, 0⟩  -- first row after t_crit: brea
 def pEx : Mct := ⟨0, 86400000, fun e => decide (e.magnitude < 5) || decide (e.originTime = 0)⟩
 
 example : TimeSorted [q1, q2, q3, q4, q5, q6] := by unfold TimeSorted; decide +kernel
-example : applyMct pEx [q1, q2, q3, q4, q5, q6] = .ok [q1, q4, q6] := by decide +kernel
+example : applyMct pEx [q1, q2, q3, q4, q5, q6] = [q1, q4, q6] := by decide +kernel
 example : [q1, q2, q3, q4, q5, q6].filter (mctKeep pEx) = [q1, q4, q6] := by decide +kernel
 -- the sortedness hypothesis is needed: behind a row later than t_crit nothing is cut …
-example : applyMct pEx [q3, q6, q3] = .ok [q6, q3] ∧ [q3, q6, q3].filter (mctKeep pEx) = [q6] := by decide +kernel
--- … and a second call after everything was removed raises
-example : applyMct pEx [q3] = .ok [] ∧ applyMct pEx [] = .error .emptyCatalog := by decide +kernel
+example : applyMct pEx [q3, q6, q3] = [q6, q3] ∧ [q3, q6, q3].filter (mctKeep pEx) = [q6] := by decide +kernel
+-- … a second call after everything was removed is a no-op since D37; the unrepaired code raised
+example : applyMct pEx [q3] = [] ∧ applyMct pEx [] = [] ∧ applyMctD37 pEx [] = .error .emptyCatalog := by decide +kernel
+example : filterSpatialQuad ⟨[(0, 0, 1, 1), (1, 0, 2, 1)]⟩ [⟨1, 0, 1/2, 1, 0, 5⟩, ⟨2, 0, 1/2, 2, 0, 5⟩, ⟨3, 0, 0, 0, 0, 5⟩]
+    = [⟨1, 0, 1/2, 1, 0, 5⟩, ⟨3, 0, 0, 0, 0, 5⟩] := by decide +kernel
 example : filterList ([RawStmt.num ⟨.magnitude, .ge, 1⟩].map RawStmt.parse) [q3, q4] ≠ [] := by decide +kernel
 end Examples
 
